@@ -29,6 +29,7 @@ func (g *Gen) registerBase() {
 	g.add("add_credit_type", g.genAddCreditType)
 	g.add("create_class", g.genCreateClass)
 	g.add("class_combo", g.genClassCombo)
+	g.add("prefix_project", g.genPrefixProject)
 	g.add("create_project", g.genCreateProject)
 	g.add("create_batch", g.genCreateBatch)
 	g.add("mint", g.genMint)
@@ -310,6 +311,41 @@ func (g *Gen) genCreateProject() *eng.Tx {
 		id = g.mangleID(id)
 	}
 	return tx(&basetypes.MsgCreateProject{Admin: g.classIssuer(c), ClassId: id, Metadata: g.metadata(), Jurisdiction: g.jurisdiction(), ReferenceId: g.referenceID()})
+}
+
+// genPrefixProject: identifiers that are string prefixes of each other (class C10 and classes C100…,
+// project C01-001 and C01-0010…). Whenever a class id is a proper prefix of another class id, the longer
+// one gets a project first and then the shorter one gets its first project — numbering, lookups and
+// range scans of the shorter id must not see the rows of the longer one.
+func (g *Gen) genPrefixProject() *eng.Tx {
+	has := map[uint64]bool{}
+	for _, p := range g.V.ProjectList {
+		has[p.ClassKey] = true
+	}
+	mk := func(c *baseapi.Class) *eng.Tx {
+		iss := sortedKeys(g.V.Issuers[c.Key])
+		if len(iss) == 0 {
+			a := obs.Addr(c.Admin)
+			return &eng.Tx{Msgs: []sdk.Msg{&basetypes.MsgUpdateClassIssuers{Admin: a, ClassId: c.Id, AddIssuers: []string{a}}}, Tag: "prefix_project/add-issuer"}
+		}
+		g.refSeq++
+		return &eng.Tx{Msgs: []sdk.Msg{&basetypes.MsgCreateProject{Admin: iss[0], ClassId: c.Id, Metadata: "prefix", Jurisdiction: "US", ReferenceId: fmt.Sprintf("PFX-%d", g.refSeq)}}, Tag: "prefix_project"}
+	}
+	for _, x := range g.V.ClassList {
+		if has[x.Key] {
+			continue
+		}
+		for _, y := range g.V.ClassList {
+			if y.Key == x.Key || !strings.HasPrefix(y.Id, x.Id) {
+				continue
+			}
+			if !has[y.Key] {
+				return mk(y) // the longer id first
+			}
+			return mk(x)
+		}
+	}
+	return nil
 }
 
 func (g *Gen) project() *baseapi.Project {
